@@ -13,7 +13,7 @@ def run(ck):
         r = tlc_must_pass(tlc("MC_Checksum", cfg, os.path.join(w, code), workers=1, timeout=3000), "C17 model " + code)
         ck.add_tlc(r, "%s: every 1- and 2-symbol error syndrome non-zero and != variant difference, all distances up to MaxLen" % code)
         cases = os.path.join(w, "lfsr_%s.ndjson" % code)
-        tlc_must_pass(tlc("Gen_Checksum", "Gen_Checksum_%s.cfg" % code, os.path.join(w, code), env={"OUT": cases}, workers=1, timeout=600),
+        tlc_must_pass(tlc("Gen_Checksum", "Gen_Checksum_%s.cfg" % code, os.path.join(w, code), env={"OUT": cases, "OUT_TABLES": os.path.join(w, "tables_%s.ndjson" % code)}, workers=1, timeout=600),
                       "C17 gen " + code)
         rep = vh(["checksum", "lfsr", "--cases", cases])
         ck.add_vh(rep, distinct_key="distinct_cases")
